@@ -614,7 +614,13 @@ def observe_class(obj, names, candidates, ctx):
             doc = Serializer(inst).serialize()
             # key order of the top-level document follows the order of declaration, which the property
             # does not speak about: compare as a mapping
-            ser = repr(sorted((k, E.reify(v)) for k, v in doc.items())) if isinstance(doc, dict) else repr(E.reify(doc))
+            if isinstance(doc, dict):
+                # ... and a set is serialized as a list in ITERATION order, which is not specified (two equal sets
+                # built separately may iterate differently): such lists are compared as multisets
+                canon = {k: canon_doc(getattr(inst, k, None), v) for k, v in doc.items()}
+                ser = repr(sorted((k, E.reify(v)) for k, v in canon.items()))
+            else:
+                ser = repr(E.reify(doc))
         except Exception as ex:  # noqa
             ser = "serialize-raises:" + E.exn_name(ex)
         # a second way IN: the serialized document deserialized by the same class (first few accepted candidates)
@@ -632,6 +638,24 @@ def observe_class(obj, names, candidates, ctx):
                                                 ("TypeError", "ValueError") else xn)
         out["beh"].append(("ok", state, ser, des))
     return out
+
+
+def canon_doc(value, doc, depth=0):
+    """The serialized document with every list that stands for a set/frozenset VALUE sorted (best effort: walks the
+    stored value and its document in parallel through lists, tuples, deques and dicts)."""
+    import collections
+    if depth > 8:
+        return doc
+    try:
+        if isinstance(value, (set, frozenset)) and isinstance(doc, list):
+            return sorted(doc, key=lambda x: repr(E.reify(x)))
+        if isinstance(value, (list, tuple, collections.deque)) and isinstance(doc, list) and len(value) == len(doc):
+            return [canon_doc(v, d, depth + 1) for v, d in zip(value, doc)]
+        if isinstance(value, dict) and isinstance(doc, dict) and len(value) == len(doc):
+            return {k: canon_doc(v, d, depth + 1) for (k, d), v in zip(doc.items(), value.values())}
+    except Exception:  # noqa
+        pass
+    return doc
 
 
 def gen_candidates(rnd, members, ctx, per_field, accepts=None):
